@@ -1588,6 +1588,23 @@ def table_hdr_cell_fn(ctx: "Wtp", token: str) -> None:
             # Inside a cell, ! and !! are normal text unless at the beginning
             # of a line
             return text_fn(ctx, token)
+        if (
+            node.kind in (NodeKind.BOLD, NodeKind.ITALIC)
+            and not (ctx.beginning_of_line and ctx.begline_enabled)
+            and not ctx.wsp_beginning_of_line
+        ):
+            # The same inside a bold/italic run of a data cell
+            for outer in reversed(ctx.parser_stack):
+                if outer.kind in (
+                    NodeKind.TABLE,
+                    NodeKind.TABLE_CAPTION,
+                    NodeKind.TABLE_ROW,
+                    NodeKind.TABLE_CELL,
+                    NodeKind.TABLE_HEADER_CELL,
+                ):
+                    break
+            if outer.kind == NodeKind.TABLE_CELL:
+                return text_fn(ctx, token)
         _parser_pop(ctx, True)
 
 
